@@ -211,6 +211,11 @@ def gen_cases(tier, seed):
     nb, per = (3, 24) if tier == "quick" else (32, 120)
     for i in range(nb):
         cases.append({"mode": "blackbox", "faults": bb[i * per:(i + 1) * per], "flood": [0, 110, 270][i % 3], "timeout": 230})
+    # (ix) churn: well over a thousand short-lived connections, most of them dropped or refused before they complete
+    # the handshake, never more than a few dozen open at a time (a long-running manager sees this over its lifetime)
+    for i in range(1 if tier == "quick" else 6):
+        cases.append({"mode": "churn", "seed": rng.getrandbits(32), "count": 1400 if tier == "quick" else rng.choice([1400, 2500, 4000]),
+                      "batch": rng.choice([20, 40]), "timeout": 280})
     return cases
 
 
@@ -250,6 +255,8 @@ def tcfix(hexdata, tc):
 def run_case(case, tier):
     if case["mode"] == "blackbox":
         return run_blackbox(case)
+    if case["mode"] == "churn":
+        return run_churn(case)
     if case["mode"] == "flood":
         return run_flood(case)
     tc = bool(case.get("tc"))
@@ -562,6 +569,93 @@ class BB:
             os.unlink(self.errpath)
         except OSError:
             pass
+
+
+def run_churn(case):
+    rng = random.Random(case["seed"])
+    res = {"violations": [], "counters": {}, "sets": {"fault_kinds": ["churn"]}, "sig": sig_of(case), "nontrivial": True}
+    V, C = res["violations"], res["counters"]
+    bb = BB()
+    try:
+        err = bb.probe("before churn")
+        if err:
+            res["inconclusive"] = "black-box manager did not serve the first probe: " + err
+            return res
+
+        def nfds():
+            try:
+                return len(os.listdir(f"/proc/{bb.proc.pid}/fd"))
+            except OSError:
+                return -1
+
+        fd0 = nfds()
+        hdr_connect_bad = W.frame_bytes(W.MT_CONNECT_V2, W.p_connect_v2(0, 0, 0, 150, 1, b"x"), src_mod=150)
+        half = W.frame_bytes(W.MT_CONNECT, W.p_connect(0, 0))[:20]
+        done = 0
+        kinds = {}
+        while done < case["count"]:
+            socks = []
+            for _ in range(case["batch"]):
+                k = rng.choice(["nothing", "half_header", "refused_id", "refused_id", "garbage", "connect_then_close"])
+                kinds[k] = kinds.get(k, 0) + 1
+                try:
+                    sk = socket.create_connection(("127.0.0.1", bb.port), timeout=5)
+                    if k == "half_header":
+                        sk.sendall(half)
+                    elif k == "refused_id":
+                        sk.sendall(hdr_connect_bad)
+                    elif k == "garbage":
+                        sk.sendall(rng.randbytes(rng.randint(1, 47)))
+                    elif k == "connect_then_close":
+                        sk.sendall(W.frame_bytes(W.MT_CONNECT, W.p_connect(0, 0)))
+                    socks.append((sk, k))
+                except OSError as e:
+                    if not bb.alive():
+                        break
+                    kinds["connect_error"] = kinds.get("connect_error", 0) + 1
+            time.sleep(0.02)
+            for sk, k in socks:
+                try:
+                    if rng.random() < 0.3:
+                        sk.setsockopt(socket.SOL_SOCKET, socket.SO_LINGER, struct.pack("ii", 1, 0))
+                    sk.close()
+                except OSError:
+                    pass
+            done += len(socks)
+            C["churn_connections"] = done
+            if not bb.alive():
+                break
+            if (done // case["batch"]) % 10 == 0:
+                err = bb.probe(f"after {done} short-lived connections")
+                C["probes_completed"] = C.get("probes_completed", 0) + 1
+                if err and not bb.alive():
+                    break
+                if err:
+                    err2 = bb.probe("retry")
+                    if err2 and bb.alive():
+                        res["inconclusive"] = "black-box probe failed twice while the manager process was alive: " + err2
+                        return res
+        time.sleep(0.3)
+        fd1 = nfds()
+        C["faults_applied"] = done
+        res["sets"]["churn_kinds"] = sorted(kinds)
+        res["sets"]["manager_open_descriptors"] = [[fd0, fd1]]     # evidence: descriptors of the manager process before / after
+        if not bb.alive():
+            txt = bb.stderr_text()
+            tb = txt[txt.rfind("Traceback"):] if "Traceback" in txt else txt[-600:]
+            V.append({"mech": "manager_died:" + crash_mech(tb if "Traceback" in txt else ""),
+                      "detail": f"black-box manager process exited (rc={bb.proc.poll()}) after {done} short-lived connections "
+                                f"(kinds {kinds}); open descriptors before {fd0}\n{tb[-900:]}"})
+            return res
+        err = bb.probe("after the churn")
+        C["probes_completed"] = C.get("probes_completed", 0) + 1
+        if err:
+            if bb.probe("retry") and bb.alive():
+                V.append({"mech": "blackbox_probe_failed", "detail": err + f" after {done} short-lived connections; descriptors {fd0}->{fd1}"})
+        res["sample"] = {"connections": done, "kinds": kinds, "manager_descriptors_before_after": [fd0, fd1]}
+        return res
+    finally:
+        bb.close()
 
 
 def run_blackbox(case):
